@@ -196,4 +196,291 @@ theorem decSingles_length (S : Schema) : ∀ (fuel : Nat) (ss : List Slot) (d : 
               · split at hhere <;> simp at hhere
           rw [← h2.2]; omega
 
+theorem decChoice_length (S : Schema) (fuel : Nat) (g : List Slot) (d : Bytes) (vss : List (List Val)) (r : Bytes)
+    (h : decChoice S fuel g d = some (vss, r)) : r.length ≤ d.length := by
+  cases fuel with
+  | zero => simp [decChoice] at h
+  | succ fuel =>
+    unfold decChoice at h
+    simp only [] at h
+    repeat' (split at h)
+    all_goals first
+      | (cases h; done)
+      | (simp only [Option.map_eq_some_iff] at h
+         obtain ⟨⟨v, d'⟩, h1, h2⟩ := h
+         simp only [Prod.mk.injEq] at h2
+         have := decParam_lt S fuel _ d v d' h1
+         rw [← h2.2]; omega)
+
+theorem decLoop_length (S : Schema) : ∀ (fuel : Nat) (g : List Slot) (acc : List (List Val)) (d : Bytes) (k : Nat)
+    (vss : List (List Val)) (r : Bytes), decLoop S fuel g acc d k = some (vss, r) → r.length ≤ d.length := by
+  intro fuel
+  induction fuel with
+  | zero => intro g acc d k vss r h; simp [decLoop] at h
+  | succ fuel ih =>
+    intro g acc d k vss r h
+    cases k with
+    | zero => simp only [decLoop, Option.some.injEq, Prod.mk.injEq] at h; rw [h.2]; exact Nat.le_refl _
+    | succ k =>
+      unfold decLoop at h
+      simp only [] at h
+      repeat' (split at h)
+      all_goals first
+        | (cases h <;> exact Nat.le_refl _)
+        | (have := ih _ _ _ _ _ _ h; omega)
+
+theorem mul_step {W a b : Nat} (h : a + 1 ≤ b) : W * a + W ≤ W * b := by
+  have := Nat.mul_le_mul_left W h
+  rw [Nat.mul_succ] at this; exact this
+
+
+theorem slotParam_of_getElem? {S : Schema} {g : List Slot} {i : Nat} {p : Container}
+    (h : (g.filterMap (fun s => S.slotParam s))[i]? = some p) : ∃ ty, S.param? ty = some p := by
+  have := List.mem_of_getElem? h
+  simp only [List.mem_filterMap] at this
+  obtain ⟨s, _, hs⟩ := this
+  exact ⟨s.ty, hs⟩
+
+set_option linter.unusedSectionVars false
+
+/-! ## fuel: one mutual induction for monotonicity and sufficiency -/
+
+section
+variable (S : Schema) (W : Nat) (hW1 : 1 ≤ W) (hW : ∀ ty p, S.param? ty = some p → walk (groupsOf p) + 3 ≤ W)
+include hW1 hW
+
+mutual
+theorem decBody_fuel : ∀ (n : Nat) (c : Container) (d : Bytes) (v : Val),
+    decBody S n c d = some v → ∀ m, (n ≤ m ∨ walk (groupsOf c) + 3 + W * d.length ≤ m) → decBody S m c d = some v
+  | 0, _, _, _, h => by simp [decBody] at h
+  | n+1, c, d, v, h => by
+    intro m hm
+    obtain ⟨m, rfl⟩ : ∃ m', m = m' + 1 := ⟨m - 1, by omega⟩
+    revert h
+    unfold decBody
+    simp only []
+    repeat' split
+    all_goals try (exact fun h => h)
+    all_goals try (intro h; cases h; done)
+    all_goals
+      have hdf := ‹decFields c.fields d = some _›
+      have hlen := decFields_length _ _ _ _ hdf
+      have hmul := Nat.mul_le_mul_left W hlen
+      have hn := ‹decGroups S n _ _ = some _›
+      have hm' := decGroups_fuel n _ _ _ hn m (by unfold groupsOf at hm; omega)
+      simp_all
+theorem decGroups_fuel : ∀ (n : Nat) (gs : List (List Slot)) (d : Bytes) (r : List (List Val) × Bytes),
+    decGroups S n gs d = some r → ∀ m, (n ≤ m ∨ walk gs + 2 + W * d.length ≤ m) → decGroups S m gs d = some r
+  | 0, _, _, _, h => by simp [decGroups] at h
+  | n+1, [], d, r, h => by
+    intro m hm
+    obtain ⟨m, rfl⟩ : ∃ m', m = m' + 1 := ⟨m - 1, by omega⟩
+    simpa [decGroups] using h
+  | n+1, g :: gs, d, r, h => by
+    intro m hm
+    obtain ⟨m, rfl⟩ : ∃ m', m = m' + 1 := ⟨m - 1, by omega⟩
+    simp only [walk] at hm
+    revert h
+    unfold decGroups
+    split
+    · exact fun h => decGroups_fuel n _ _ _ h m (by simp only [List.length_nil] at hm; omega)
+    · rename_i s tl
+      simp only []
+      have key : ∀ (X : Nat → Option (List (List Val) × Bytes)),
+          (∀ x, X n = some x → X m = some x ∧ x.2.length ≤ d.length) →
+          (match X n with
+            | none => none
+            | some (vs, d') => match decGroups S n gs d' with
+              | none => none
+              | some (vss, d'') => some (vs ++ vss, d'')) = some r →
+          (match X m with
+            | none => none
+            | some (vs, d') => match decGroups S m gs d' with
+              | none => none
+              | some (vss, d'') => some (vs ++ vss, d'')) = some r := by
+        intro X hX
+        cases hx : X n with
+        | none => intro h; cases h
+        | some x =>
+          obtain ⟨vs, d'⟩ := x
+          obtain ⟨hx', hl⟩ := hX _ hx
+          rw [hx']
+          simp only []
+          have hmul := Nat.mul_le_mul_left W hl
+          cases hg : decGroups S n gs d' with
+          | none => intro h; cases h
+          | some y =>
+            rw [decGroups_fuel n _ _ _ hg m (by simp only [] at hmul; omega)]
+            exact fun h => h
+      by_cases hc1 : (!s.repeatable && ((s :: tl).length == 1 || s.group.isNone && !s.optional)) = true
+      · simp only [hc1, if_true]
+        exact key (fun k => decSingles S k (s :: tl) d) (fun x hx =>
+          ⟨decSingles_fuel n _ _ _ hx m (by omega), decSingles_length S n _ _ x.1 x.2 hx⟩)
+      · simp only [hc1, if_false, Bool.false_eq_true]
+        by_cases hc2 : (!(s.optional || s.repeatable)) = true
+        · simp only [hc2, if_true]
+          exact key (fun k => decChoice S k (s :: tl) d) (fun x hx =>
+            ⟨decChoice_fuel n _ _ _ hx m (by omega), decChoice_length S n _ _ x.1 x.2 hx⟩)
+        · simp only [hc2, if_false, Bool.false_eq_true]
+          exact key (fun k => decLoop S k (s :: tl) (List.map (fun _ => []) (s :: tl)) d d.length) (fun x hx =>
+            ⟨decLoop_fuel n _ _ _ _ _ hx m (by omega), decLoop_length S n _ _ _ _ x.1 x.2 hx⟩)
+theorem decSingles_fuel : ∀ (n : Nat) (ss : List Slot) (d : Bytes) (r : List (List Val) × Bytes),
+    decSingles S n ss d = some r → ∀ m, (n ≤ m ∨ ss.length + 2 + W * d.length ≤ m) → decSingles S m ss d = some r
+  | 0, _, _, _, h => by simp [decSingles] at h
+  | n+1, [], d, r, h => by
+    intro m hm
+    obtain ⟨m, rfl⟩ : ∃ m', m = m' + 1 := ⟨m - 1, by omega⟩
+    simpa [decSingles] using h
+  | n+1, s :: ss, d, r, h => by
+    intro m hm
+    obtain ⟨m, rfl⟩ : ∃ m', m = m' + 1 := ⟨m - 1, by omega⟩
+    simp only [List.length_cons] at hm
+    revert h
+    unfold decSingles
+    split
+    · exact fun h => h
+    · rename_i p hp
+      have hpW := hW s.ty p hp
+      have recS : ∀ (d' : Bytes) (f : List (List Val) × Bytes → List (List Val) × Bytes), d'.length ≤ d.length →
+          (decSingles S n ss d').map f = some r → (decSingles S m ss d').map f = some r := by
+        intro d' f hl h
+        have hmul := Nat.mul_le_mul_left W hl
+        simp only [Option.map_eq_some_iff] at h ⊢
+        obtain ⟨y, hy, hr⟩ := h
+        exact ⟨y, decSingles_fuel n _ _ _ hy m (by omega), hr⟩
+      have hopt : (if s.optional = true then some (none : Option (Val × Bytes)) else none) = some none ∨
+          (if s.optional = true then some (none : Option (Val × Bytes)) else none) = none := by
+        by_cases ho : s.optional = true
+        · left; simp only [ho, if_true]
+        · right; simp only [ho, if_false, Bool.false_eq_true]
+      have keyT : ∀ t : Nat,
+          (match (if t = p.typeId then Option.map some (decParam S n p d) else if s.optional = true then some none else none) with
+            | none => none
+            | some none => Option.map (fun x => match x with | (vss, r) => ([] :: vss, r)) (decSingles S n ss d)
+            | some (some (v, d')) => Option.map (fun x => match x with | (vss, r) => ([v] :: vss, r)) (decSingles S n ss d')) = some r →
+          (match (if t = p.typeId then Option.map some (decParam S m p d) else if s.optional = true then some none else none) with
+            | none => none
+            | some none => Option.map (fun x => match x with | (vss, r) => ([] :: vss, r)) (decSingles S m ss d)
+            | some (some (v, d')) => Option.map (fun x => match x with | (vss, r) => ([v] :: vss, r)) (decSingles S m ss d')) = some r := by
+        intro t
+        by_cases ht : t = p.typeId
+        · simp only [if_pos ht]
+          cases hP : decParam S n p d with
+          | none => simp only [Option.map_none]; intro h; cases h
+          | some x =>
+            rw [decParam_fuel n p d x hpW hP m (by omega)]
+            have hlt := decParam_lt S n p d x.1 x.2 hP
+            simp only [Option.map_some]
+            exact recS _ _ (by omega)
+        · simp only [if_neg ht]
+          rcases hopt with ho | ho <;> rw [ho]
+          · exact recS _ _ (Nat.le_refl _)
+          · exact fun h => h
+      simp only []
+      generalize peek (!p.isTLV) (!!p.isTLV) d = pk
+      cases pk with
+      | short =>
+        simp only []
+        rcases hopt with ho | ho <;> rw [ho]
+        · exact recS _ _ (Nat.le_refl _)
+        · exact fun h => h
+      | tv t => exact keyT t
+      | tlv t => exact keyT t
+theorem decChoice_fuel : ∀ (n : Nat) (g : List Slot) (d : Bytes) (r : List (List Val) × Bytes),
+    decChoice S n g d = some r → ∀ m, (n ≤ m ∨ 2 + W * d.length ≤ m) → decChoice S m g d = some r
+  | 0, _, _, _, h => by simp [decChoice] at h
+  | n+1, g, d, r, h => by
+    intro m hm
+    obtain ⟨m, rfl⟩ : ∃ m', m = m' + 1 := ⟨m - 1, by omega⟩
+    revert h
+    unfold decChoice
+    simp only []
+    repeat' split
+    all_goals try (exact fun h => h)
+    all_goals
+      rename_i p hp
+      obtain ⟨ty, hty⟩ := slotParam_of_getElem? hp
+      have hpW := hW ty p hty
+      intro h
+      simp only [Option.map_eq_some_iff] at h ⊢
+      obtain ⟨y, hy, hr⟩ := h
+      exact ⟨y, decParam_fuel n p d y hpW hy m (by omega), hr⟩
+theorem decLoop_fuel : ∀ (n : Nat) (g : List Slot) (acc : List (List Val)) (d : Bytes) (k : Nat) (r : List (List Val) × Bytes),
+    decLoop S n g acc d k = some r → ∀ m, (n ≤ m ∨ 2 + W * d.length ≤ m) → decLoop S m g acc d k = some r
+  | 0, _, _, _, _, _, h => by simp [decLoop] at h
+  | n+1, g, acc, d, 0, r, h => by
+    intro m hm
+    obtain ⟨m, rfl⟩ : ∃ m', m = m' + 1 := ⟨m - 1, by omega⟩
+    simpa [decLoop] using h
+  | n+1, g, acc, d, k+1, r, h => by
+    intro m hm
+    obtain ⟨m, rfl⟩ : ∃ m', m = m' + 1 := ⟨m - 1, by omega⟩
+    revert h
+    unfold decLoop
+    simp only []
+    repeat' split
+    all_goals try (exact fun h => h)
+    all_goals try (intro h; cases h; done)
+    all_goals
+      have hpi := ‹(List.filterMap _ g)[_]? = some _›
+      obtain ⟨ty, hty⟩ := slotParam_of_getElem? hpi
+      have hpW := hW ty _ hty
+      have hP := ‹decParam S n _ _ = some _›
+      have hlt := decParam_lt S n _ _ _ _ hP
+      have hP' := decParam_fuel n _ _ _ hpW hP m (by omega)
+      have hstep := mul_step (W := W) (Nat.succ_le_of_lt hlt)
+      simp_all
+      all_goals first
+        | omega
+        | exact fun h => decLoop_fuel n _ _ _ _ _ h m (by omega)
+theorem decParam_fuel : ∀ (n : Nat) (p : Container) (d : Bytes) (r : Val × Bytes), walk (groupsOf p) + 3 ≤ W →
+    decParam S n p d = some r → ∀ m, (n ≤ m ∨ 1 + W * d.length ≤ m) → decParam S m p d = some r
+  | 0, _, _, _, _, h => by simp [decParam] at h
+  | n+1, p, d, r, hp, h => by
+    intro m hm
+    obtain ⟨m, rfl⟩ : ∃ m', m = m' + 1 := ⟨m - 1, by omega⟩
+    revert h
+    unfold decParam
+    split
+    · split
+      · rename_i b0 b1 l0 l1 rest
+        simp only []
+        split
+        · exact fun h => h
+        · rename_i hlen
+          intro h
+          simp only [Option.map_eq_some_iff] at h ⊢
+          obtain ⟨v, hv, hr⟩ := h
+          simp only [Bool.or_eq_true, decide_eq_true_eq, not_or, Nat.not_lt] at hlen
+          refine ⟨v, decBody_fuel n p _ v hv m ?_, hr⟩
+          have : ((List.take (be16 l0 l1) (b0 :: b1 :: l0 :: l1 :: rest)).drop 4).length + 1 ≤ (b0 :: b1 :: l0 :: l1 :: rest).length := by
+            simp only [List.length_drop, List.length_take, List.length_cons] at *; omega
+          have := mul_step (W := W) this
+          omega
+      · exact fun h => h
+    · simp only []
+      split
+      · rename_i hn
+        intro h
+        simp only [Option.map_eq_some_iff] at h ⊢
+        obtain ⟨v, hv, hr⟩ := h
+        simp only [Bool.and_eq_true, decide_eq_true_eq] at hn
+        refine ⟨v, decBody_fuel n p _ v hv m ?_, hr⟩
+        have : ((List.take (paramMinSize S p) d).drop 1).length + 1 ≤ d.length := by
+          simp only [List.length_drop, List.length_take]; omega
+        have := mul_step (W := W) this
+        omega
+      · exact fun h => h
+end
+end
+
+/-! ## the table-dependent slope -/
+
+/-- `W = 2·maxSlots + 4` pays for one nesting level of every parameter of the table -/
+theorem slope_ok (S : Schema) : ∀ ty p, S.param? ty = some p → walk (groupsOf p) + 3 ≤ 2 * S.maxSlots + 4 := by
+  intro ty p h
+  have h1 := walk_groupsOf_le p
+  have h2 := le_maxSlots (List.mem_of_find?_eq_some h)
+  omega
+
 end LLRP
